@@ -4,6 +4,8 @@ from common import *
 import build
 
 META = '\\.+*?()|[]{}^$#&-~'
+# ASCII punctuation that regex_syntax::escape leaves alone (some of it means something after a backslash: \\< \\> \\b ..)
+PUNCT = '!"%\',/:;<=>@_`'
 
 
 def rust_str_lit(s):
@@ -63,7 +65,7 @@ def random_byte_literal(rng):
         if k < 0.4:
             out.append(rng.randint(0x80, 0xff))
         elif k < 0.7:
-            out.append(ord(rng.choice(META + ' aAzZkK09')))
+            out.append(ord(rng.choice(META + PUNCT + ' aAzZkK09')))
         else:
             out.append(rng.choice([0, 9, 10, 0x7f, 0x41, 0x61, 0x5a, 0x7a]))
     return bytes(out)
